@@ -223,7 +223,9 @@ impl CoordTrait for PointZ {
             1 => self.y(),
             2 => self.z,
             3 => {
-                if self.m > NO_DATA {
+                // Must be the exact complement of the test done in `dim`,
+                // so that a NaN measure (reported as a 4th dimension) can be read.
+                if !(self.m <= NO_DATA) {
                     self.m
                 } else {
                     panic!("asked for 4th item from coordinate but this coordinate does not have 4 dimensions.")
@@ -259,7 +261,9 @@ impl CoordTrait for &PointZ {
             1 => self.y(),
             2 => self.z,
             3 => {
-                if self.m > NO_DATA {
+                // Must be the exact complement of the test done in `dim`,
+                // so that a NaN measure (reported as a 4th dimension) can be read.
+                if !(self.m <= NO_DATA) {
                     self.m
                 } else {
                     panic!("asked for 4th item from coordinate but this coordinate does not have 4 dimensions.")
